@@ -15,8 +15,10 @@ from pathlib import Path
 VERIF = Path(__file__).resolve().parent.parent
 LEAN = VERIF / "lean"
 REPO = Path(os.environ.get("VERIF_REPO", "/repo"))
-EVIDENCE = VERIF / "evidence"
-REPLAYS = VERIF / "replays"
+# experiments on modified copies of the repository (VERIF_REPO) may redirect their output so that they do not overwrite the
+# evidence and replays of the registered runs
+EVIDENCE = Path(os.environ.get("VERIF_EVIDENCE_DIR") or VERIF / "evidence")
+REPLAYS = Path(os.environ.get("VERIF_REPLAY_DIR") or VERIF / "replays")
 KNOWN = VERIF / "known_findings.json"
 DRIVER = LEAN / ".lake" / "build" / "bin" / "driver"
 ALLOWED_AXIOMS = {"propext", "Classical.choice", "Quot.sound"}
@@ -244,13 +246,14 @@ class Report:
         self.n_violations = getattr(self, "n_violations", 0) + 1
         if len(self.violations) >= MAX_REPLAYS:
             return      # counted in the evidence; no further replay files for this run
-        REPLAYS.mkdir(exist_ok=True)
+        REPLAYS.mkdir(parents=True, exist_ok=True)
         body = dict(replay)
         body.update({"property": self.prop, "what": what, "seed": seed(), "tier": self.tier})
         h = hashlib.sha256(json.dumps(body, sort_keys=True, default=str).encode()).hexdigest()[:12]
         path = REPLAYS / f"{self.prop}-{h}.json"
         path.write_text(json.dumps(body, indent=1, default=str))
-        self.violations.append({"what": what, "replay": str(path.relative_to(VERIF)), "no_input": no_input})
+        shown = str(path.relative_to(VERIF)) if VERIF in path.parents else str(path)
+        self.violations.append({"what": what, "replay": shown, "no_input": no_input})
 
     # -- finish ---------------------------------------------------------------
     def finish(self) -> int:
